@@ -65,7 +65,7 @@ class Machine(object):
         allocator.load()
 
     def budget(self, tier):
-        return 600 if tier == "quick" else 40000
+        return 600 if tier == "quick" else 4000
 
     # ------------------------------------------------------------------ gen
     def gen(self, rng, tier, idx):
